@@ -7,7 +7,8 @@
 //!                 single matcher over the modelled domain, as multisets of binding maps;
 //!   * `pg-run`    ManyMatcher::find_matches vs the modelled traversal on the dump of the real
 //!                 automaton, as multisets of (pattern, binding map);
-//!   * `pg-cert`   the verified structural checker (C09) on the dump of every port-graph automaton.
+//!   * `pg-cert`   the verified structural checker (C09) and the soundness certificate lab_ok (C01,
+//!                 Theorem c01_portgraph_run_sound) on the dump of every port-graph automaton.
 //! Orders that depend on hash-map iteration inside root_candidates.rs are not modelled: every
 //! result is canonicalised (entries of a map in key order, lists sorted by their text).
 use crate::c10::{pgcons_s, pgkey_s};
@@ -144,14 +145,17 @@ pub fn eval(rng: &mut Rng, pats: &[(G, usize)], host: &G, heurs: &[Heur], o: &mu
     // the single matcher on each constraint vector
     let mut present = vec![];
     let mut css = vec![];
+    let mut all_css: Vec<S> = vec![];
     for (p, r) in pats {
         let pat = pattern_of(p, *r);
         let Ok(cs) = pat.try_to_constraint_vec() else {
             present.push(false);
+            all_css.push(S::L(vec![]));
             continue;
         };
         present.push(true);
         let cs_s = sexp::list(&cs, pgcons_s);
+        all_css.push(cs_s.clone());
         let got = catch(|| {
             let m = PGSinglePatternMatcher::try_from_pattern(&pat).unwrap();
             m.find_matches(&hg).map(|pm| pm.match_data.iter().map(|(k, n)| (*k, n.index())).collect::<Vec<_>>()).collect::<Vec<_>>()
@@ -176,7 +180,7 @@ pub fn eval(rng: &mut Rng, pats: &[(G, usize)], host: &G, heurs: &[Heur], o: &mu
             None => "(panic)".to_string(),
         };
         o.case(sexp::l(vec![sexp::a("pg-run"), dump.clone(), sexp::l(vec![host_s.clone()])]).to_string(), format!("({})", exp), built.n_states >= 3);
-        o.case(sexp::l(vec![sexp::a("pg-cert"), dump, sexp::list(&present, |x| sexp::b(*x))]).to_string(), "(wf 1)".to_string(), built.n_states >= 3);
+        o.case(sexp::l(vec![sexp::a("pg-cert"), dump, sexp::list(&present, |x| sexp::b(*x)), S::L(all_css.clone())]).to_string(), "(wf 1 sound 1)".to_string(), built.n_states >= 3);
     }
     o.count("pgm_patterns", pats.len());
 }
